@@ -8,7 +8,7 @@
    qpdbasis_from_instruction (Model/Bases.v).  θ' is `theta_prime` of decompositions.py:
    θ' = -θ/2 for rxx/ryy/rzz (so U_rxx = cos θ' + i sin θ' XX = RXX(θ)), θ' = θ/4 for crx/cry/crz/cp. *)
 From Coq Require Import String List QArith Reals.
-From CKT Require Import Common.Base Common.PolyRing Common.Ptm Model.Bases Proofs.BasesP Proofs.BasesKak.
+From CKT Require Import Common.Base Common.PolyRing Common.Ptm Model.Bases Proofs.BasesP Proofs.BasesMat Proofs.BasesKak.
 Import ListNotations.
 Close Scope Q_scope.
 Open Scope string_scope.
@@ -56,8 +56,8 @@ Proof. exact thetavec_exact. Qed.
 Theorem c02_kak_dressing : forall (env : nat -> R) (uenv : nat -> list (list R)) (b : list term),
   (forall k, wf4 (uenv k)) -> b <> [] ->
   channel (RCoef env) uenv (dress_terms b)
-  = mmul RRing (kron RRing (uenv 3) (uenv 1))
-      (mmul RRing (channel (RCoef env) uenv b) (kron RRing (uenv 2) (uenv 0))).
+  = mmul RRing (kron RRing (uenv 3%nat) (uenv 1%nat))
+      (mmul RRing (channel (RCoef env) uenv b) (kron RRing (uenv 2%nat) (uenv 0%nat))).
 Proof. exact kak_dressing. Qed.
 
 (* the model's KAK path is that dressing of the nonlocal basis, lists shared per side dressed once *)
@@ -69,18 +69,18 @@ Theorem c02_kak_exact : forall (a b c : R) (uenv : nat -> list (list R)),
   (forall k, wf4 (uenv k)) ->
   let C := RCoef (env3 a b c) in
   channel C uenv (resolve kak_basis)
-  = mmul RRing (kron RRing (uenv 3) (uenv 1))
-      (mmul RRing (ptm2 C [(c1 C, Uweyl C)]) (kron RRing (uenv 2) (uenv 0))).
+  = mmul RRing (kron RRing (uenv 3%nat) (uenv 1%nat))
+      (mmul RRing (ptm2 C [(c1 C, Uweyl C)]) (kron RRing (uenv 2%nat) (uenv 0%nat))).
 Proof. exact kak_exact. Qed.
 
 (* refusals: unregistered and not a two-qubit gate; unbound parameter; to_matrix failure —
    and nothing else is refused *)
 Theorem c02_refusal :
-  (forall g, ~ In (g_name g) registered -> g_is_gate g && Nat.eqb (g_nq g) 2 = false -> basis_of g = Refused) /\
+  (forall g, ~ In (g_name g) registered -> g_is_gate g && Nat.eqb (g_nq g) 2%nat = false -> basis_of g = Refused) /\
   (forall g, In (g_name g) ["rxx"; "ryy"; "rzz"; "crx"; "cry"; "crz"; "cp"] -> g_param_ok g = false -> basis_of g = Refused) /\
   (forall g, ~ In (g_name g) registered -> g_matrix_ok g = false -> basis_of g = Refused) /\
   (forall g, (In (g_name g) registered -> g_param_ok g = true) ->
-             (~ In (g_name g) registered -> g_is_gate g = true /\ g_nq g = 2 /\ g_matrix_ok g = true) ->
+             (~ In (g_name g) registered -> g_is_gate g = true /\ g_nq g = 2%nat /\ g_matrix_ok g = true) ->
              exists b, basis_of g = Ok b).
 Proof. exact (conj refusal_unregistered (conj refusal_unbound (conj refusal_matrix accepted_otherwise))). Qed.
 
@@ -106,8 +106,8 @@ Example c02_ex_coeffs :
 Proof. vm_compute. reflexivity. Qed.
 Example c02_ex_rzz_nontrivial :
   meqb Q35 (channel Q35 nou (basis_terms "rzz")) (ptm_unitary2 Q35 U_rzz) = true /\
-  meqb Q35 (channel Q35 nou (basis_terms "rzz")) (ident Q35 16) = false /\
-  nth 6 (nth 9 (channel Q35 nou (basis_terms "rzz")) []) 0%Q = (24 # 25)%Q.
+  meqb Q35 (channel Q35 nou (basis_terms "rzz")) (ident Q35 16%nat) = false /\
+  nth 14%nat (nth 1%nat (channel Q35 nou (basis_terms "rzz")) []) 0%Q = (24 # 25)%Q.
 Proof. vm_compute. repeat split; reflexivity. Qed.
 Example c02_ex_crx_maps :
   map (fun t => (snd (fst t), snd t)) (basis_terms "crx")
